@@ -2,11 +2,12 @@
 """Developer helper: assemble and verify one unit, print a summary.  usage: run_unit.py <unit> [repo]"""
 import importlib.util, json, os, sys, tempfile
 sys.path.insert(0, os.path.dirname(os.path.abspath(__file__)))
-sys.path.insert(0, os.path.join(os.path.dirname(os.path.dirname(os.path.abspath(__file__))), "units"))
+UNITS = os.environ.get("VERIF_UNITS") or os.path.join(os.path.dirname(os.path.dirname(os.path.abspath(__file__))), "units")   # VERIF_UNITS: develop a unit outside /verif
+sys.path.insert(0, UNITS)
 import verus_unit
 
 def load_unit(name):
-    p = os.path.join(os.path.dirname(os.path.abspath(__file__)), "..", "units", name + ".py")
+    p = os.path.join(UNITS, name + ".py")
     spec = importlib.util.spec_from_file_location("unit_" + name, p)
     m = importlib.util.module_from_spec(spec); spec.loader.exec_module(m)
     return m.UNIT
